@@ -124,3 +124,13 @@ func corpusstatMain(args []string) {
 	}
 	fmt.Println("items with own format", with, "without", without, "formats with samples", len(byF), "of", len(allFormats()))
 }
+
+func init() { register("c18jobs", func(args []string) {
+	n := 70
+	if ev.Tier() == "thorough" {
+		n = 400
+	}
+	for i, j := range c18Jobs(n) {
+		fmt.Println(i, j.Name, len(j.Data))
+	}
+}) }
